@@ -72,7 +72,7 @@ func offsetOf(src string, line, col int) int {
 
 var c19CommentTexts = []string{
 	"c", "note", " TODO: later ", "let x = 1;", "fn main() { }", "\"unterminated", "'", "/* nested open", "// twice",
-	"@extern", " @extern ", "éß 日本語 ✓", "}", "{", ";", "return 1", "import \"std/io\"", "*", "/", "* /", "-1", "",
+	"@extern", " @extern ", "éß 日本語 ✓", "größe", "ключ", "✓", "naïve café", "😀 emoji", "}", "{", ";", "return 1", "import \"std/io\"", "*", "/", "* /", "-1", "",
 }
 
 // c19Trivia builds one trivia string. Tabs appear only as the last character of a whitespace
@@ -160,16 +160,21 @@ func c19Tokenize(src string) (toks []verifhook.Tok, lexErrs int, err error) {
 }
 
 // c19MakeVariant inserts trivia right before the start of chosen tokens (i.e. at the end of the gap).
-func c19MakeVariant(rng *rand.Rand, b *c19Base, bi int) c19Variant {
+func c19MakeVariant(rng *rand.Rand, b *c19Base, bi int, hot []int) c19Variant {
 	nt := len(b.toks)
 	k := 1 + rng.IntN(40)
 	if k > nt {
 		k = nt
 	}
 	chosen := map[int]bool{}
-	for len(chosen) < k {
-		chosen[rng.IntN(nt)] = true
+	for tries := 0; len(chosen) < k && tries < 20*k; tries++ {
+		if len(hot) > 0 && rng.IntN(2) == 0 {
+			chosen[hot[rng.IntN(len(hot))]] = true
+		} else {
+			chosen[rng.IntN(nt)] = true
+		}
 	}
+	k = len(chosen)
 	v := c19Variant{base: bi, shift: make([]int, nt), gaps: k, kinds: map[string]bool{}}
 	var out strings.Builder
 	prev := 0
@@ -408,25 +413,54 @@ func checkC19(c *Ctx) error {
 			addBase(fmt.Sprintf("gen:%d:%d:token-mutation:%d", c.Env.Seed, b, tries), "token-mutation", m)
 		}
 	}
-	// variants
-	var vars []c19Variant
-	for bi := range bases {
-		for k := 0; k < nVar; k++ {
-			rng := core.CaseRng(c.Env.Seed, "c19v:"+bases[bi].id, k)
-			vars = append(vars, c19MakeVariant(rng, &bases[bi], bi))
-		}
-	}
+	// bases first: their diagnostics tell which tokens carry positions worth disturbing
 	var tcs []TC
 	for _, b := range bases {
 		tcs = append(tcs, TC{ID: b.id, Files: map[string]string{"main.fer": b.src}})
 	}
-	for i, v := range vars {
-		tcs = append(tcs, TC{ID: fmt.Sprintf("%s:v%d", bases[v.base].id, i), Files: map[string]string{"main.fer": v.src}})
-	}
-	results, dirs, err := c.TypecheckAll("c19", tcs)
+	results, dirs, err := c.TypecheckAll("c19b", tcs)
 	if err != nil {
 		return err
 	}
+	// variants: half of the gaps are drawn from the "hot" tokens - the tokens of a line that
+	// carries a diagnostic, up to and including the token the diagnostic points at
+	var vars []c19Variant
+	for bi := range bases {
+		b := &bases[bi]
+		hot := map[int]bool{}
+		for _, d := range results[bi].Diags {
+			if d.Line == 0 || d.File == "" {
+				continue
+			}
+			off := offsetOf(b.src, d.Line, d.Col)
+			for ti, t := range b.toks {
+				if t.Line == d.Line && (off < 0 || t.Start <= off) {
+					hot[ti] = true
+				}
+			}
+		}
+		var hotList []int
+		for ti := range b.toks {
+			if hot[ti] {
+				hotList = append(hotList, ti)
+			}
+		}
+		for k := 0; k < nVar; k++ {
+			rng := core.CaseRng(c.Env.Seed, "c19v:"+b.id, k)
+			vars = append(vars, c19MakeVariant(rng, b, bi, hotList))
+		}
+	}
+	var vtcs []TC
+	for i, v := range vars {
+		vtcs = append(vtcs, TC{ID: fmt.Sprintf("%s:v%d", bases[v.base].id, i), Files: map[string]string{"main.fer": v.src}})
+	}
+	vres, vdirs, err := c.TypecheckAll("c19v", vtcs)
+	if err != nil {
+		return err
+	}
+	tcs = append(tcs, vtcs...)
+	results = append(results, vres...)
+	dirs = append(dirs, vdirs...)
 	// the diagnostics name the file by path: strip the directory so P and P' agree
 	type exec struct{ vi int }
 	var toRun []int
